@@ -493,6 +493,11 @@ def wConstCast : Prog := [⟨[("a", .uint 8)], 2,
   [.ret [.cast (.uint 8) (.bin .band (.cast (.uint 2) (.var "a")) (.lit (.uint 2) 3)),
          .bin .add (.var "a") (.lit (.uint 8) 3)]]⟩]
 
+/-- `func main(a int40) (int40, int40) { return a & 0xffffffff, a & int40(0xffffffff) }` -/
+def wConstWiden : Prog := [⟨[("a", .int 40)], 2,
+  [.ret [.bin .band (.var "a") (.lit (.int 40) 0xffffffff),
+         .bin .band (.var "a") (.lit (.int 40) 0xffffffff)]]⟩]
+
 /-- `func main(a uint32) (bool, bool) { return 100 < a, a > 100 }` -/
 def wConstLeft : Prog := [⟨[("a", .uint 32)], 2,
   [.ret [.bin .lt (.lit (.uint 32) 100) (.var "a"), .bin .gt (.var "a") (.lit (.uint 32) 100)]]⟩]
@@ -510,8 +515,10 @@ theorem C03_finding_witnesses :
     runRaw wNamed 20 1 [5] = some [(5, 8)] ∧ runRaw wNamed 20 1 [1] = some [(0, 8)] ∧
     -- C03-const-cast-narrows-shared-constant, a = 5: circuit returns (1, 4)
     runRaw wConstCast 9 0 [5] = some [(1, 8), (8, 8)] ∧
+    -- C03-const-signed-widening, a = 2^39 + 5: circuit returns (5, 2^39 + 5)
+    runRaw wConstWiden 9 0 [0x8000000005] = some [(5, 40), (5, 40)] ∧
     -- C03-const-left-unsigned-compare, a = 2^31: circuit returns (0, 1)
     runRaw wConstLeft 9 0 [0x80000000] = some [(1, 1), (1, 1)] := by
-  refine ⟨?_, ?_, ?_, ?_, ?_, ?_, ?_, ?_⟩ <;> decide +kernel
+  refine ⟨?_, ?_, ?_, ?_, ?_, ?_, ?_, ?_, ?_⟩ <;> decide +kernel
 
 end Mpc
